@@ -28,11 +28,11 @@ pub fn main(tier: &str, seed: u64, n_override: Option<u64>) {
     std::panic::set_hook(Box::new(|_| {}));
     let n = n_override.unwrap_or(if tier == "thorough" { 300_000 } else { 12_000 });
     let mut rng = Rng::new(seed ^ 0xC01);
-    let kinds = [PoseKind::Reachable, PoseKind::Reachable, PoseKind::Sing0, PoseKind::SingPi, PoseKind::Unreachable, PoseKind::OnAxis, PoseKind::Stretched, PoseKind::Random];
+    let kinds = [PoseKind::Reachable, PoseKind::Reachable, PoseKind::Sing0, PoseKind::SingPi, PoseKind::Unreachable, PoseKind::OnAxis, PoseKind::Stretched, PoseKind::Random, PoseKind::NearSing];
     for idx in 0..n {
         let mut r = random_robot(&mut rng, idx, idx % 3 == 0, None);
         if idx % 7 == 3 { r.p.dof = 5; }
-        let kind = kinds[(idx % 8) as usize];
+        let kind = kinds[(idx % 9) as usize];
         let (mut pose, origin) = make_pose(&mut rng, &r, kind);
         let entry = (rng.below(4)) as u8;
         let mut prev: Joints = match rng.below(5) {
